@@ -125,8 +125,8 @@ def worker(args):
                 bad('decoder_rejects_headers', f'vorbis_synthesis_headerin/init on encoder output: {None if lr is None else (lr["hrc"], lr["initrc"])}')
                 continue
             codec = vspec.PacketCodec(s)
-            hardmax = c['mode'] == 'm' and c['max'] > 0
-            if c['mode'] == 'm':
+            hardmax, managed = effective_management(c)
+            if managed:
                 res['managed'] += 1
             flags = []
             ok_stream = True
@@ -157,7 +157,7 @@ def worker(args):
                         break
                     res['eop_with_max'] += 1
                     continue
-                if c['mode'] == 'q':
+                if not managed:
                     if not (8 * (len(data) - 1) < used <= 8 * len(data)):
                         bad('packet_not_consumed_to_last_byte', f'packet {i}: {len(data)} bytes, specification decode uses {used} bits')
                     if lbits != used:
@@ -186,13 +186,44 @@ def worker(args):
     return res
 
 
+def effective_management(c):
+    """(hard maximum configured, bitrate management active) after the control requests of the case"""
+    managed = c['mode'] == 'm'
+    hardmax = managed and c['max'] > 0
+    for t in c['ctl'].split(','):
+        if t == 'rm2null':
+            managed, hardmax = False, False
+        elif t.startswith('rm2='):
+            f = t[4:].split(':')
+            managed = True
+            if f[0] != 'x':
+                hardmax = int(f[0]) > 0
+    return hardmax, managed
+
+
 def long_cases(tier):
     """several seconds of alternating loud noise / quiet tone through every managed limit combination: the reservoirs fill and drain,
     so the limit logic (truncation only under a hard maximum, padding under a minimum) is really exercised"""
     out = []
     for rate, ch, per in ((8000, 1, 16000), (44100, 2, 128000)) + (((22050, 2, 64000), (16000, 1, 28000)) if tier == 'thorough' else ()):
+        n = rate * (6 if rate > 20000 or tier == 'thorough' else 8)
         for (mx, nom, mn) in ((-1, per, -1), (-1, per, per // 2), (-1, -1, per // 2), (per, -1, -1), (per * 3 // 2, per, per // 2), (per, per, per)):
-            out.append(dict(rate=rate, ch=ch, mode='m', q=0, max=mx, nom=nom, min=mn, ctl='-', sig='alt', n=rate * (6 if rate > 20000 or tier == 'thorough' else 8)))
+            out.append(dict(rate=rate, ch=ch, mode='m', q=0, max=mx, nom=nom, min=mn, ctl='-', sig='alt', n=n))
+        # control-interface routes to the same machinery: average only / minimum only with a SMALL reservoir (no hard maximum: nothing may be truncated),
+        # quality mode plus a hard maximum (oggenc -q N -M max), limits with a zero reservoir, management switched off again (oggenc -b)
+        k = per // 1000
+        for sig in ('alt', 'noise'):
+            for ctl in ('rm2=0:%d:0:4096:x' % k, 'rm2=0:%d:0:4096:100' % k, 'rm2=0:%d:0:512:0' % (k * 2), 'rm2=0:%d:%d:2048:50' % (k, k // 2), 'rm2=0:0:%d:1024:x' % (k // 2)):
+                out.append(dict(rate=rate, ch=ch, mode='m', q=0, max=-1, nom=per, min=-1, ctl=ctl, sig=sig, n=n // 2))
+        # the same small reservoirs under other set-up templates (the nominal rate selects the mode and thereby the packet sizes of the candidate blobs)
+        for nom in (per // 2, per * 25 // 16, per * 2):
+            for ctl in ('rm2=0:x:0:4096:10', 'rm2=0:x:0:4096:100', 'rm2=0:x:0:1024:x'):
+                out.append(dict(rate=rate, ch=ch, mode='m', q=0, max=-1, nom=nom, min=-1, ctl=ctl, sig='noise', n=n // 2))
+        for ctl in ('rm2=%d:0:0:x:x' % k, 'rm2=%d:0:0:4096:0' % (k // 2), 'rm2=%d:0:%d:x:x' % (k * 2, k // 2)):
+            out.append(dict(rate=rate, ch=ch, mode='q', q=0.3, max=-1, nom=-1, min=-1, ctl=ctl, sig='alt', n=n // 2))
+        for (mx, nom, mn) in ((per * 3 // 2, per, per // 2), (-1, per, -1), (per, -1, -1)):
+            out.append(dict(rate=rate, ch=ch, mode='m', q=0, max=mx, nom=nom, min=mn, ctl='rm2null', sig='alt', n=n // 3))
+        out.append(dict(rate=rate, ch=ch, mode='m', q=0, max=per * 3 // 2, nom=per, min=per // 2, ctl='rm2=%d:%d:%d:0:x' % (k * 3 // 2, k, k // 2), sig='alt', n=n // 3))
     return out
 
 
